@@ -176,6 +176,15 @@ def sonify_bundle(me, rng):
         (s.chroma, (np.abs(np.random.RandomState(3).randn(12, 3)), np.arange(3) * 0.05, 2000), dict(length=400, function=np.cos)),
         (s.chroma, (np.abs(np.random.RandomState(3).randn(12, 3)), np.arange(3) * 0.05, 2000), dict(length=400)),
         (s.chords, (["C:maj", "N"], iv, 2000), dict(length=600)),
+        # branches found by line coverage: clicks running past the requested length, boundary times instead of intervals and
+        # no explicit length, a single time frame (constant interpolator), amplitudes for the pitch contour
+        (s.clicks, (np.array([0.01, 0.2, 0.4]), 2000), dict(length=420)),
+        (s.clicks, (np.array([0.01, 0.2, 0.4]), 2000), dict(length=380, click=np.ones(50))),
+        (s.time_frequency, (gram[:, :3], np.array([220.0, 440.0, 660.0]), np.array([0.0, 0.05, 0.1, 0.15]), 2000), {}),
+        (s.time_frequency, (gram[:, :1], np.array([220.0, 440.0, 660.0]), np.array([[0.0, 0.1]]), 2000), dict(length=300)),
+        (s.pitch_contour, (np.arange(5) * 0.05, np.array([220.0, 230.0, 0.0, 200.0, 210.0]), 2000),
+         dict(amplitudes=np.array([1.0, 0.5, 0.0, 0.25, 1.0]))),
+        (s.pitch_contour, (np.arange(5) * 0.05, np.array([220.0, 230.0, 0.0, 200.0, 210.0]), 2000), dict(kind="nearest")),
     ]
 
 
